@@ -226,7 +226,7 @@ int main(int argc, char** argv) {
         vf::require_outcomes("hist", 4);
     }
     {
-        Scenario s{T ? 8 : 6, T ? 5 : 4, T ? SIZES_T : SIZES_Q, T ? (int)(sizeof SIZES_T / sizeof *SIZES_T) : (int)(sizeof SIZES_Q / sizeof *SIZES_Q), true};
+        Scenario s{T ? 7 : 6, T ? 5 : 4, T ? SIZES_T : SIZES_Q, T ? (int)(sizeof SIZES_T / sizeof *SIZES_T) : (int)(sizeof SIZES_Q / sizeof *SIZES_Q), true};
         vf::info("deep.bound", vf::fmt("depth %d, live<=%d, %d sizes, pruned on canonical list-model state", s.depth, s.maxlive, s.nsizes));
         vf::section_dfs("deep", 2, true, [&](vf::Chooser& ch) { s.run(ch); });
         vf::require_outcomes("deep", 4);
